@@ -196,7 +196,8 @@ func rGoTypesFor(class string, n int, all bool) []string {
 	panic("unknown class " + class)
 }
 
-func rRun(w *ndWriter, pre rValue, gotype string) {
+// rBuild makes the real value an abstract addressed value describes
+func rBuild(pre rValue, gotype string) reflect.Value {
 	v := rNew(gotype)
 	e := v.Elem()
 	e.FieldByName("ID").SetString("https://example.com/values/1")
@@ -221,6 +222,12 @@ func rRun(w *ndWriter, pre rValue, gotype string) {
 			e.FieldByName("Object").Set(reflect.ValueOf(it))
 		}
 	}
+	return v
+}
+
+func rRun(w *ndWriter, pre rValue, gotype string) {
+	v := rBuild(pre, gotype)
+	e := v.Elem()
 	hr, ok := v.Interface().(ap.HasRecipients)
 	if !ok {
 		w.Write(J{"ev": "rcpt", "gotype": gotype, "pre": pre, "panic": true, "msg": "type has no Recipients()"})
